@@ -108,6 +108,50 @@ fn host_of(tok: &str) -> Option<&'static str> {
 #[derive(Default)]
 struct TapLog {
     written: Vec<u8>,
+    /// offset in `written` at which the most recent connection starts
+    conn_start: usize,
+    /// recording proxy only (`-native`): connections accepted / whose client side has been read to its end
+    accepted: usize,
+    closed: usize,
+}
+
+/// The client's view of the wire for failure classification: the tap log and whether it is filled
+/// in by the recording proxy (asynchronously) or by the tapped IO itself (synchronously).
+#[derive(Clone)]
+struct Wire {
+    log: Arc<Mutex<TapLog>>,
+    native: bool,
+}
+
+impl Wire {
+    fn now(&self) -> WirePos {
+        let l = self.log.lock().unwrap();
+        wire_pos(&l.written[l.conn_start.min(l.written.len())..])
+    }
+    /// Position on the most recent connection once everything the client wrote is in the log.
+    /// The tapped IO logs a write before the client can go on; the proxy logs it when its own task
+    /// gets to read it, so there we wait until it has read that connection to its end (a client
+    /// whose connect failed has dropped the socket) — or the answer can no longer change.
+    async fn settled(&self) -> WirePos {
+        if !self.native {
+            return self.now();
+        }
+        for _ in 0..3000 {
+            let p = self.now();
+            if p == WirePos::Finished {
+                return p;
+            }
+            {
+                let l = self.log.lock().unwrap();
+                if l.accepted > 0 && l.closed >= l.accepted {
+                    drop(l);
+                    return self.now();
+                }
+            }
+            tokio::time::sleep(Duration::from_millis(1)).await;
+        }
+        self.now()
+    }
 }
 
 struct Tap<IO> {
@@ -420,38 +464,127 @@ fn rustls_server_config(c: &Case) -> Result<rustls::ServerConfig, String> {
     Ok(cfg)
 }
 
-fn classify_err(e: &(dyn std::error::Error + 'static)) -> String {
-    // walk the source chain, looking inside io::Error payloads as well
-    let mut texts = Vec::new();
-    let mut cur: Option<&(dyn std::error::Error + 'static)> = Some(e);
-    let mut depth = 0;
-    while let Some(err) = cur {
-        depth += 1;
-        if depth > 16 {
-            break;
+/// How far the client got on the wire, read off the bytes it wrote (TLS record layer, RFC 8446
+/// §5.1: `type(1) version(2) length(2) fragment`). In a TLS 1.3 handshake the client writes its
+/// ClientHello in the clear (type 22), possibly a dummy ChangeCipherSpec (type 20), and after it
+/// has judged the server's certificate either an encrypted alert (2 + 1 + 16 = 19 bytes) or its
+/// Finished flight (at least 4 + 32 + 1 + 16 = 53 bytes), both with outer type 23.
+#[derive(Clone, Copy, PartialEq, Eq, Debug)]
+enum WirePos {
+    /// nothing that looks like TLS was written
+    NoTls,
+    /// a ClientHello went out, the client's Finished did not
+    Hello,
+    /// the client's side of the handshake completed (its Finished flight went out)
+    Finished,
+}
+
+fn wire_pos(written: &[u8]) -> WirePos {
+    let mut pos = WirePos::NoTls;
+    let mut i = 0;
+    while i + 5 <= written.len() {
+        let (ty, major) = (written[i], written[i + 1]);
+        let len = u16::from_be_bytes([written[i + 3], written[i + 4]]) as usize;
+        if !(20..=23).contains(&ty) || major != 3 {
+            break; // not a TLS record stream (plaintext HTTP/2, …)
         }
-        texts.push(err.to_string());
-        if let Some(r) = err.downcast_ref::<rustls::Error>() {
-            return classify_rustls(r);
+        if ty == 22 && pos == WirePos::NoTls {
+            pos = WirePos::Hello;
         }
-        if let Some(ioe) = err.downcast_ref::<io::Error>() {
+        if ty == 23 && len >= 53 && pos != WirePos::NoTls {
+            pos = WirePos::Finished;
+        }
+        i += 5 + len;
+    }
+    pos
+}
+
+/// Is `err` one of the error types a caller can name?  tonic's own `TlsError` and
+/// `HttpsUriWithoutTlsSupport` are `pub(crate)`: they can be recognised only as "none of these".
+fn nameable(err: &(dyn std::error::Error + 'static)) -> bool {
+    err.is::<io::Error>()
+        || err.is::<rustls::Error>()
+        || err.is::<rustls::pki_types::InvalidDnsNameError>()
+        || err.is::<rustls::server::VerifierBuilderError>()
+        || err.is::<tonic::transport::Error>()
+        || err.is::<tonic::ConnectError>()
+        || err.is::<tonic::TimeoutExpired>()
+        || err.is::<tonic::Status>()
+        || err.is::<hyper::Error>()
+        || err.is::<h2::Error>()
+        || err.is::<hyper_util::client::legacy::Error>()
+        || err.is::<tokio::time::error::Elapsed>()
+        || err.is::<http::Error>()
+        || err.is::<http::uri::InvalidUri>()
+}
+
+/// The innermost error of a source chain (looking inside `io::Error` payloads as well), and the
+/// first `rustls::Error` met on the way.
+fn chain_leaf<'a>(e: &'a (dyn std::error::Error + 'static)) -> (&'a (dyn std::error::Error + 'static), Option<&'a rustls::Error>) {
+    let mut cur = e;
+    for _ in 0..16 {
+        if let Some(r) = cur.downcast_ref::<rustls::Error>() {
+            return (cur, Some(r));
+        }
+        if let Some(ioe) = cur.downcast_ref::<io::Error>() {
             if let Some(inner) = ioe.get_ref() {
-                if let Some(r) = inner.downcast_ref::<rustls::Error>() {
-                    return classify_rustls(r);
-                }
-                cur = Some(inner);
+                cur = inner;
                 continue;
+            }
+        }
+        match cur.source() {
+            Some(s) => cur = s,
+            None => break,
+        }
+    }
+    (cur, None)
+}
+
+/// Failure class of a connect / call error, by STRUCTURE — never by message text (rewording a
+/// `Display` impl is not a behaviour change): a `rustls::Error` in the source chain is classified
+/// by its variant; an error whose innermost cause is one of tonic's private types by the position
+/// in the handshake at which it was raised (what the client had written on that connection by
+/// then): nothing TLS on the wire ⇒ the connector refused an https URI for want of a TLS
+/// configuration; the client's Finished on the wire ⇒ tonic's own check after a completed
+/// handshake (ALPN).  Two steps, because the error itself must not be held across an await.
+enum PreClass {
+    Done(String),
+    /// innermost cause is a tonic-private error type: the position on the wire decides
+    Private,
+}
+
+fn pre_classify(e: &(dyn std::error::Error + 'static)) -> PreClass {
+    let (_, tls) = chain_leaf(e);
+    if let Some(r) = tls {
+        return PreClass::Done(classify_rustls(r));
+    }
+    // tonic's `Connector::call` wraps whatever stopped it in the public `ConnectError`; what it
+    // wraps directly is either the dial / handshake error (io::Error, …) or one of tonic's own
+    // private error values (`TlsError::H2NotNegotiated`, `HttpsUriWithoutTlsSupport`)
+    let mut cur: Option<&(dyn std::error::Error + 'static)> = Some(e);
+    for _ in 0..16 {
+        let Some(err) = cur else { break };
+        if let Some(ce) = err.downcast_ref::<tonic::ConnectError>() {
+            if !nameable(&*ce.0) {
+                return PreClass::Private;
             }
         }
         cur = err.source();
     }
-    let all = texts.join(" | ");
-    if all.contains("HTTP/2 was not negotiated") {
-        "h2-not-negotiated".into()
-    } else if all.contains("Connecting to HTTPS without TLS enabled") {
-        "https-without-tls".into()
-    } else {
-        format!("other<{}>", all.replace(' ', "_"))
+    if std::env::var("VERIF_C15_DEBUG").is_ok() {
+        return PreClass::Done(format!("other<{:?}>", e).replace(' ', "_"));
+    }
+    PreClass::Done("other<nameable>".into())
+}
+
+async fn finish_class(pre: PreClass, wire: &Wire) -> String {
+    match pre {
+        PreClass::Done(s) => s,
+        PreClass::Private => match wire.settled().await {
+            WirePos::Finished => "h2-not-negotiated".into(),
+            WirePos::NoTls => "https-without-tls".into(),
+            WirePos::Hello => "other<private-error-mid-handshake>".into(),
+        },
     }
 }
 
@@ -558,12 +691,21 @@ async fn start_proxy<IO: Transport>(dial: Dialer<IO>, log: Arc<Mutex<TapLog>>, d
         while let Ok((a, _)) = l.accept().await {
             let _ = a.set_nodelay(true);
             dials.fetch_add(1, Ordering::SeqCst);
+            {
+                let mut l = log.lock().unwrap();
+                l.accepted += 1;
+                l.conn_start = l.written.len();
+            }
             let dial = dial.clone();
             let log = log.clone();
             tokio::spawn(async move {
-                let Ok(b) = dial().await else { return };
+                let Ok(b) = dial().await else {
+                    log.lock().unwrap().closed += 1;
+                    return;
+                };
                 let (mut ar, mut aw) = tokio::io::split(a);
                 let (mut br, mut bw) = tokio::io::split(b);
+                let log2 = log.clone();
                 let up = async move {
                     let mut buf = vec![0u8; 16384];
                     loop {
@@ -582,6 +724,7 @@ async fn start_proxy<IO: Transport>(dial: Dialer<IO>, log: Arc<Mutex<TapLog>>, d
                             }
                         }
                     }
+                    log2.lock().unwrap().closed += 1;
                     let _ = bw.shutdown().await;
                 };
                 let down = async move {
@@ -599,6 +742,7 @@ async fn run_client<IO: Transport>(idx: usize, spec: ClientSpec, dial: Dialer<IO
     let Mode { lazy, twice, native, cto } = mode;
     let bad = |why: &str| ClientOut { cfg_state: "ok".into(), res: format!("fail:{}", why), plain: false, dialed: false };
     let log = Arc::new(Mutex::new(TapLog::default()));
+    let wire = Wire { log: log.clone(), native };
     let dials = Arc::new(AtomicUsize::new(0));
     let Some(host) = host_of(&spec.urihost) else { return bad("bad-case") };
     // `<scheme>+o<scheme2>`: endpoint URI with <scheme>, plus `Endpoint::origin(<scheme2>://…)`
@@ -666,6 +810,10 @@ async fn run_client<IO: Transport>(idx: usize, spec: ClientSpec, dial: Dialer<IO
                     let log = log.clone();
                     let dial = dial.clone();
                     dials.fetch_add(1, Ordering::SeqCst);
+                    {
+                        let mut l = log.lock().unwrap();
+                        l.conn_start = l.written.len();
+                    }
                     async move {
                         let io = dial().await?;
                         Ok::<_, BoxErr>(hyper_util::rt::TokioIo::new(Tap { inner: io, log }))
@@ -680,14 +828,17 @@ async fn run_client<IO: Transport>(idx: usize, spec: ClientSpec, dial: Dialer<IO
                 (true, false) => ep.connect().await,
             };
             let r = match ch {
-                Err(e) => format!("fail:{}", classify_err(&e)),
+                Err(e) => {
+                    let pre = pre_classify(&e);
+                    format!("fail:{}", finish_class(pre, &wire).await)
+                }
                 Ok(ch) => {
                     let mut grpc = tonic::client::Grpc::new(ch);
-                    let first = one_call(&mut grpc, idx).await;
+                    let first = one_call(&mut grpc, idx, &wire).await;
                     if lazy && first != "ok" {
                         // a lazily connected channel dials again for the next call: it must fail
                         // the same way (no fallback on retry)
-                        let second = one_call(&mut grpc, idx).await;
+                        let second = one_call(&mut grpc, idx, &wire).await;
                         if canonical_res(&second) != canonical_res(&first) {
                             format!("fail:retry-differs<{}|{}>", canonical_res(&first), canonical_res(&second))
                         } else {
@@ -886,44 +1037,63 @@ fn canonical_res(res: &str) -> String {
     format!("fail:{}", c)
 }
 
-async fn one_call(grpc: &mut tonic::client::Grpc<tonic::transport::Channel>, idx: usize) -> String {
+async fn one_call(grpc: &mut tonic::client::Grpc<tonic::transport::Channel>, idx: usize, wire: &Wire) -> String {
     match grpc.ready().await {
-        Err(e) => format!("fail:{}", classify_err(&e)),
+        Err(e) => {
+            let pre = pre_classify(&e);
+            format!("fail:{}", finish_class(pre, wire).await)
+        }
         Ok(()) => {
             let path = http::uri::PathAndQuery::from_static("/verif.Tls/Call");
             let codec = tonic::codec::ProstCodec::<String, String>::default();
             match grpc.unary(tonic::Request::new(payload(idx)), path, codec).await {
                 Ok(r) if r.get_ref() == &format!("echo:{}", payload(idx)) => "ok".into(),
                 Ok(_) => "fail:wrong-reply".into(),
-                Err(st) => format!("fail:{}", classify_status(&st)),
+                Err(st) => format!("fail:{}", classify_status(&st, wire).await),
             }
         }
     }
 }
 
+/// Class of a configuration error (`Endpoint::tls_config`, `Server::tls_config`), by structure:
+/// the public error types by downcast; tonic's private `TlsError` — which a caller cannot name —
+/// by the variant identifier its derived `Debug` prints.  `Display` texts are never looked at.
 fn classify_cfg_err(e: &(dyn std::error::Error + 'static)) -> String {
-    let mut texts = vec![e.to_string()];
-    let mut cur = e.source();
-    while let Some(s) = cur {
-        texts.push(s.to_string());
-        cur = s.source();
+    let (leaf, tls) = chain_leaf(e);
+    if tls.is_some() {
+        // rustls refused the certificate / key pair (`with_client_auth_cert`, `with_single_cert`)
+        return "identity-rejected".into();
     }
-    let all = texts.join(" | ");
-    if all.contains("invalid dns name") || all.contains("InvalidDnsName") {
-        "invalid-dns-name".into()
-    } else if all.contains("Error parsing TLS certificate") {
-        "cert-parse".into()
-    } else if all.contains("Error parsing TLS private key") {
-        "key-parse".into()
-    } else {
-        format!("other<{}>", all.replace(' ', "_"))
+    if leaf.is::<rustls::pki_types::InvalidDnsNameError>() {
+        return "invalid-dns-name".into();
     }
+    if let Some(v) = leaf.downcast_ref::<rustls::server::VerifierBuilderError>() {
+        return match v {
+            rustls::server::VerifierBuilderError::NoRootAnchors => "no-root-anchors".into(),
+            _ => "verifier-builder".into(),
+        };
+    }
+    if !nameable(leaf) {
+        let variant = format!("{:?}", leaf);
+        return match variant.as_str() {
+            "CertificateParseError" => "cert-parse".into(),
+            "PrivateKeyParseError" => "key-parse".into(),
+            "NativeCertsNotFound" => "native-certs-not-found".into(),
+            _ => format!("private<{}>", variant.replace(' ', "_")),
+        };
+    }
+    if leaf.downcast_ref::<tonic::transport::Error>().is_some() {
+        // a transport error without a source: Endpoint's own checks (invalid URI, TLS on a UDS endpoint)
+        return "invalid-uri".into();
+    }
+    format!("other<{:?}>", leaf).replace(' ', "_")
 }
 
-fn classify_status(st: &tonic::Status) -> String {
+async fn classify_status(st: &tonic::Status, wire: &Wire) -> String {
     use std::error::Error;
-    if let Some(src) = st.source() {
-        let c = classify_err(src);
+    let pre = st.source().map(pre_classify);
+    if let Some(pre) = pre {
+        let c = finish_class(pre, wire).await;
         if !c.starts_with("other<") {
             return c;
         }
@@ -957,24 +1127,7 @@ fn srvcfg(ops: &str) -> String {
     }
     match Server::builder().tls_config(tls) {
         Ok(_) => "ok".into(),
-        Err(e) => {
-            let mut texts = vec![e.to_string()];
-            let mut cur = std::error::Error::source(&e);
-            while let Some(s) = cur {
-                texts.push(format!("{} / {:?}", s, s));
-                cur = s.source();
-            }
-            let all = texts.join(" | ");
-            if all.contains("Error parsing TLS certificate") {
-                "err:cert-parse".into()
-            } else if all.contains("Error parsing TLS private key") {
-                "err:key-parse".into()
-            } else if all.contains("NoRootAnchors") {
-                "err:no-root-anchors".into()
-            } else {
-                format!("err:other<{}>", all.replace(' ', "_"))
-            }
-        }
+        Err(e) => format!("err:{}", classify_cfg_err(&e)),
     }
 }
 
